@@ -38,6 +38,7 @@ pub fn scenarios_for(prop: &str, quick: bool) -> Vec<Scenario> {
     if quick {
         // the generated grid to depth 8 under the property's monitors
         v.extend(scenarios::grid(true));
+        v.extend(scenarios::hqgrid(true, false));
     } else {
         // thorough: the property's own families first, then every other scenario of the tier
         // (incl. the generated grid to depth 12) under the same monitors
